@@ -216,7 +216,6 @@ def check_gates(ctx, prog, lr):
                 continue
             a = U(c.expr)
             if not a.startswith('self.') or a in ('self.use_conf',
-                                                  'self.policy_path',
                                                   'self.overwrite',
                                                   'self.rules'):
                 continue
@@ -240,10 +239,10 @@ def check_gates(ctx, prog, lr):
             ctx.ob('C20.FLAGS', False, '%s:%d' % (F, e.line),
                    e.frame or lr.qual, '%s = %s' % (a, U(t.expand(e.value))),
                    'the flag %s gates a step that writes the shared rule '
-                   'stores and is lowered during the reload: a concurrent '
-                   'enforcement call sees it lowered, skips that step and '
-                   'decides on a store the first call has not finished '
-                   'rebuilding' % a)
+                   'stores and is lowered during the reload: another '
+                   'enforcement call - a concurrent one, or simply the next '
+                   'one - sees it lowered, skips that step and decides on a '
+                   'store that was not rebuilt' % a)
 
 
 def check(ctx):
@@ -398,6 +397,10 @@ def check(ctx):
     # directories are then re-applied on top of it)
     from . import c10
     ctx.borrow('C20.LOAD-STEP', c10.check_pair, only=['C10.PAIR'])
+    # every enforcement call performs its own load step before it reads the
+    # stores (whatever kind of rule it was given)
+    ctx.borrow('C20.LOAD-STEP', c10.check_load_first,
+               only=['C10.LOAD-FIRST'])
     for f, n, lock in readers:
         ctx.sample('reader %s %s:%d %s' % (f.qual, f.module.path.split(
             '/')[-1], n.lineno, U(n)))
